@@ -31,7 +31,7 @@ pub fn gen_len(r: &mut Rng, cfg: &GenCfg, max: usize) -> usize {
     l.min(max)
 }
 
-const UTF8_UNITS: &[&str] = &["a", "z", "/", "é", "ß", "€", "\u{FFFD}", "𐍈", "\u{10FFFF}", "\u{7F}", "\u{80}", "\u{7FF}", "\u{800}", "\u{FFFF}", "\u{10000}", " ", "\u{FEFF}", "\u{200B}", "\u{A0}", "\u{2028}", "e\u{301}", "\u{1}", "\t", "$", "A"];
+const UTF8_UNITS: &[&str] = &["a", "z", "/", "é", "ß", "€", "\u{FFFD}", "𐍈", "\u{10FFFF}", "\u{7F}", "\u{80}", "\u{7FF}", "\u{800}", "\u{FFFF}", "\u{10000}", " ", "\u{FEFF}", "\u{200B}", "\u{A0}", "\u{2028}", "e\u{301}", "\u{1}", "\t", "$", "A", "\u{123}", "\u{42B}", "\u{124}", "\u{12F}", "\u{100}", "\u{202B}", "\u{1F623}", "\u{1F62B}"];
 
 /// valid UTF-8 of exactly `len` bytes (mixing 1..4-byte scalars, padded with ASCII)
 pub fn utf8_of_len(r: &mut Rng, len: usize, ascii_only: bool) -> Vec<u8> {
